@@ -16,6 +16,7 @@ PROP = dict(
         "MM.C07.C07_model_lens",
         "MM.C07.C07_send_lens",
         "MM.C07.C07_gen_agree",
+        "MM.C07.C07_shell_seal_send_atomic",
         "MM.C07.C07_tcp",
         "MM.C07.C07_exit",
         "MM.C07.C07_fwd",
